@@ -47,10 +47,14 @@ class Outcome:
     def finish(self):
         known, fixed = common.load_known_findings()
         unlisted = []
+        printed = set()
         for v in self.violations:
             k = [x for x in known if x['property'] == self.pid and x['obligation'] in v['obligation']]
             if k:
-                print('KNOWN-FINDING: property=%s %s' % (self.pid, k[0]['what']))
+                # one line per listed finding (several failed obligations may belong to the same finding)
+                if k[0]['what'] not in printed:
+                    printed.add(k[0]['what'])
+                    print('KNOWN-FINDING: property=%s %s' % (self.pid, k[0]['what']))
             else:
                 unlisted.append(v)
         for v in unlisted:
@@ -61,6 +65,8 @@ class Outcome:
                 line += ' no-failing-input-found'
             print(line)
         cov = dict(self.coverage)
+        if printed:
+            cov['known_findings_reported'] = sorted(printed)
         if self.inconclusive:
             cov['inconclusive'] = [x[:500] for x in self.inconclusive]
         if self.proof_lost:
